@@ -113,6 +113,63 @@ fn header(op: u64, inc: &[u64], out: &[u64], c: &Case) -> Vec<u64> {
     input
 }
 
+thread_local! {
+    static ORACLE_VIOLATIONS: std::cell::Cell<u64> = std::cell::Cell::new(0);
+}
+
+/// Naive counting oracle, independent of the Coq model: evaluates the SPECIFICATION
+/// proved in coq/M/QuorumProofs.v (committed_index_largest, gc_two_groups,
+/// gc_single_group, gc_zero_group) directly on the implementation's answers.
+fn oracle_majority(ids: &[u64], m: &PMap, plain: (u64, bool), gc: (u64, bool)) {
+    let bad = |what: &str| {
+        ORACLE_VIOLATIONS.with(|v| v.set(v.get() + 1));
+        eprintln!("ORACLE VIOLATION {}: ids={:?} plain={:?} gc={:?}", what, ids, plain, gc);
+    };
+    if ids.is_empty() {
+        if plain != (u64::MAX, true) || gc != (u64::MAX, true) {
+            bad("empty");
+        }
+        return;
+    }
+    let ig: Vec<(u64, u64)> = ids.iter().map(|id| m.get(id).map(|p| (p.matched, p.commit_group_id)).unwrap_or((0, 0))).collect();
+    let q = ids.len() / 2 + 1;
+    let cnt = |r: u64| ig.iter().filter(|x| x.0 >= r).count();
+    // largest acknowledged index with a majority behind it
+    let best = ig.iter().map(|x| x.0).filter(|&r| cnt(r) >= q).max().unwrap();
+    if plain != (best, false) {
+        bad("plain");
+    }
+    if plain.0 != u64::MAX && cnt(plain.0 + 1) >= q {
+        bad("plain-not-largest");
+    }
+    // group commit
+    let mut pair_best: Option<u64> = None;
+    for x in &ig {
+        for y in &ig {
+            if x.1 != 0 && y.1 != 0 && x.1 != y.1 {
+                let v = x.0.min(y.0);
+                pair_best = Some(pair_best.map_or(v, |b| b.max(v)));
+            }
+        }
+    }
+    let expect = match pair_best {
+        Some(g) => (g.min(best), true),
+        None => {
+            if ig.iter().all(|x| x.1 != 0) {
+                (best, false)
+            } else {
+                (ig.iter().map(|x| x.0).min().unwrap(), false)
+            }
+        }
+    };
+    if gc != expect {
+        bad("group-commit");
+    }
+    if gc.0 > plain.0 {
+        bad("gc-exceeds-plain");
+    }
+}
+
 /// op 0: MajorityConfig direct; only `c.inc` is used.
 pub fn run_majority(c: &Case, sh: &mut Shard) {
     let set: FxSet = c.inc.iter().cloned().collect();
@@ -122,7 +179,18 @@ pub fn run_majority(c: &Case, sh: &mut Shard) {
     let vm = vote_map(&c.votes);
     let (i0, f0) = cfg.committed_index(false, &m);
     let (i1, f1) = cfg.committed_index(true, &m);
+    oracle_majority(&order, &m, (i0, f0), (i1, f1));
     let vr = format!("{}", cfg.vote_result(|id| vm.get(&id).cloned()));
+    {
+        let yes = order.iter().filter(|id| vm.get(id) == Some(&true)).count();
+        let missing = order.iter().filter(|id| vm.get(id).is_none()).count();
+        let q = order.len() / 2 + 1;
+        let expect = if order.is_empty() || yes >= q { "VoteWon" } else if yes + missing < q { "VoteLost" } else { "VotePending" };
+        if vr != expect {
+            ORACLE_VIOLATIONS.with(|v| v.set(v.get() + 1));
+            eprintln!("ORACLE VIOLATION vote: ids={:?} votes={:?} got {}", order, c.votes, vr);
+        }
+    }
     let out = vec![raft::majority(order.len()) as u64, i0, f0 as u64, i1, f1 as u64, vote_code(&vr)];
     sh.put(COMP, &header(0, &order, &[], c), &out);
 }
@@ -154,6 +222,21 @@ pub fn run_joint(c: &Case, direct: bool, tracker: bool, sh: &mut Shard) {
         let j = t.conf().voters();
         let (i0, f0) = j.committed_index(false, &m);
         let (i1, f1) = j.committed_index(true, &m);
+        {
+            // joint = min of the halves (each half checked against the oracle)
+            let hi = MajorityConfig::new(inc_order.iter().cloned().collect::<FxSet>());
+            let ho = MajorityConfig::new(out_order.iter().cloned().collect::<FxSet>());
+            for (gcf, got) in [(false, (i0, f0)), (true, (i1, f1))] {
+                let a = hi.committed_index(gcf, &m);
+                let b = ho.committed_index(gcf, &m);
+                if got != (a.0.min(b.0), a.1 && b.1) {
+                    ORACLE_VIOLATIONS.with(|v| v.set(v.get() + 1));
+                    eprintln!("ORACLE VIOLATION joint-min: inc={:?} out={:?}", inc_order, out_order);
+                }
+            }
+            oracle_majority(&inc_order, &m, hi.committed_index(false, &m), hi.committed_index(true, &m));
+            oracle_majority(&out_order, &m, ho.committed_index(false, &m), ho.committed_index(true, &m));
+        }
         let vr = format!("{}", j.vote_result(|id| vm.get(&id).cloned()));
         let out = vec![i0, f0 as u64, i1, f1 as u64, vote_code(&vr)];
         sh.put(COMP, &header(1, &inc_order, &out_order, c), &out);
@@ -410,5 +493,9 @@ pub fn main(args: &[String]) {
             total += s.finish();
         }
     }
-    println!("cases={}", total);
+    let viol = ORACLE_VIOLATIONS.with(|v| v.get());
+    println!("cases={} oracle_violations={}", total, viol);
+    if viol > 0 {
+        std::process::exit(1);
+    }
 }
